@@ -596,17 +596,40 @@ class RefModel:
                     stray.append((asset, node, t, float(arr[t])))
         if stray:
             return "stray_flow:%s" % (stray[:3],), None
-        st, x, obj = self.lp.solve(extra_rows=self.pin_rows(table, tol))
-        if st == "infeasible":
-            # guard against a solver-tolerance artefact: a band of width ~1e-6 next to exact balance rows can be
-            # declared infeasible by presolve. Decide with an elastic model (minimal total deviation from the table).
-            dev = self.min_deviation(table)
-            if dev is not None and dev <= 1e-5 * (1.0 + self._table_scale(table)):
-                st, x, obj = self.lp.solve(extra_rows=self.pin_rows(table, 20 * tol))
+        st, x, obj = self.elastic_solve(table, tol)
         if st != "optimal":
             return st, None
         self.x_plug = x
         return st, -(obj + self.lp.const)
+
+    def elastic_solve(self, table, tol=1e-6):
+        """plug-in with a deviation budget: every pinned flow may deviate from the table, the SUM of absolute deviations is
+        bounded by tol*(1 + sum |table|). (Bands around single rows turned out to be fragile: HiGHS presolve can declare a
+        band of width 1e-6 on a row of integer columns infeasible.) The value is maximised under that budget."""
+        lp = self.lp
+        n0 = len(lp.lb)
+        rows, slack = [], []
+        total = 0.0
+        for (asset, node), d in self.flows.items():
+            arr = table.get((asset, node))
+            for t, e in d.items():
+                v = 0.0 if arr is None else float(arr[t])
+                total += abs(v)
+                sp_, sm_ = lp.var(0.0, INF), lp.var(0.0, INF)
+                slack += [sp_, sm_]
+                co = dict(e)
+                co[sp_] = 1.0
+                co[sm_] = -1.0
+                rows.append((co, v, v))
+        budget = tol * (1.0 + total)
+        rows.append(({j: 1.0 for j in slack}, -INF, budget))
+        cmax = max([abs(c) for c in lp.cost] + [1.0])
+        self.pin_slack = 4 * budget * cmax
+        try:
+            st, x, obj = lp.solve(extra_rows=rows)
+            return st, (None if x is None else x[:n0]), obj
+        finally:
+            del lp.lb[n0:], lp.ub[n0:], lp.cost[n0:], lp.integ[n0:]
 
     def _table_scale(self, table):
         return max([float(np.abs(v).max(initial=0.0)) for v in table.values()] + [0.0])
